@@ -7,6 +7,8 @@ is a shape of the resolved program; this module decides the links, never the beh
 who-may-call (single producer)                                                                       [DESIGN 5/C05 clause 1]
  W1 pool-task-never-enqueues      nothing reachable from operator() of a functor type handed to Pool::submit puts anything
                                   on a queue of futures (workers only fulfil)
+ W4 pool-task-shares-no-mutable-state   nothing reachable from operator() of a submitted functor declares a non-const function-local
+                                  static or writes a namespace-scope / static-member variable (tasks share only their arguments and the queues)
  W2 queue-producer-role           every enqueue on a queue of futures (Queue<future<T>>::push, add_to_queue,
                                   add_end_of_data_to_queue) is written in the producer class of that queue: Parser hierarchy
                                   for Buffer, ReadThreadManager for raw input strings
@@ -346,6 +348,96 @@ def rule_pool_tasks(fb, R):
         else:
             R.ok('W1-pool-task-never-enqueues', key, ops[0].site, '%d bodies reachable' % len(seen))
     return types
+
+
+MUTATORS = ('push_back', 'emplace_back', 'push', 'emplace', 'insert', 'erase', 'clear', 'append', 'assign', 'resize', 'reserve', 'swap', 'reset',
+            'store', 'exchange', 'fetch_add', 'fetch_sub', 'pop_back', 'pop', 'operator=', 'operator+=', 'operator-=', 'operator|=', 'operator&=',
+            'operator++', 'operator--', 'operator[]', 'set', 'add')
+# shared state a pool task may legitimately touch (one reason each)
+SHARED_STATE_OK = {
+    # (none needed on today's tree: the closure of PBFDataBlobDecoder::operator() references only const namespace-scope constants)
+}
+
+
+def _is_const_type(t):
+    t = (t or '').strip()
+    return t.startswith('const ') and not t.endswith(('*', '&')) or t.endswith(' const') or t.endswith('*const')
+
+
+def _written_globals(fb, g):
+    """[(node, how)] namespace-scope / static-member variables of non-const type that body g writes: assigned, incremented, receiver of
+    a mutating member call, or handed to a non-const reference parameter of a function whose body is known."""
+    out = []
+    pm = g.parent_map()
+    for n in g.all_nodes():
+        is_var = n.get('k') == 'var' and n.get('vk') in ('global', 'static_member')
+        is_mem = n.get('k') == 'member' and n.get('staticvar')
+        if not (is_var or is_mem) or _is_const_type(n.get('t')) or not n.get('q', '').startswith('osmium::'):
+            continue
+        # climb through member / index / wrappers to the expression that uses the object
+        x = n['id']
+        hops = 0
+        while x in pm and hops < 10:
+            p = pm[x]
+            pn = g.nodes[p]
+            k = pn.get('k')
+            hops += 1
+            if k in ('wrap', 'icast', 'index') or (k == 'member' and pn.get('field')):
+                x = p
+                continue
+            if k == 'assign' and g.strip(pn['lhs']) in g.subtree(pn['lhs']) and x in g.subtree(pn['lhs']):
+                out.append((n, 'assigned'))
+            elif k == 'unop' and pn.get('op') in ('++', '--'):
+                out.append((n, pn['op']))
+            elif k == 'unop' and pn.get('op') == '&':
+                out.append((n, 'address taken'))
+            elif k == 'call' and pn.get('recv') is not None and x in g.subtree(pn['recv']):
+                nm = pn.get('q', '').rsplit('::', 1)[-1]
+                bodies = fb.by_usr.get(pn.get('u'), []) if pn.get('u') else []
+                if (bodies and not all(b.const for b in bodies)) or (not bodies and nm in MUTATORS):
+                    out.append((n, 'receiver of ' + pn.get('q', nm)))
+            elif k == 'call':
+                idx = [i for i, a in enumerate(pn.get('args', [])) if a is not None and x in g.subtree(a)]
+                for b in fb.by_usr.get(pn.get('u'), []) if pn.get('u') else []:
+                    for i in idx:
+                        if i < len(b.params):
+                            t = b.params[i]['tC']
+                            if t.rstrip().endswith('&') and not t.startswith('const ') and not t.rstrip().endswith('&&'):
+                                out.append((n, 'passed by reference to ' + pn.get('q', '?')))
+            break
+    return out
+
+
+def rule_pool_task_state(fb, R, task_types):
+    """W4: a pool task shares no mutable state with other tasks except through its own arguments and the queues: nothing reachable
+    from operator() of a submitted functor declares a function-local static of non-const type or writes a namespace-scope /
+    static-member variable.  (Workers run the tasks in any interleaving; the result must equal a single-threaded decode.)"""
+    for t in task_types:
+        ops = [f for f in fb.fns(t + '::operator()') if f.has_cfg]
+        if not ops:
+            continue
+        seen = U.reach(fb, ops, 14)
+        key = 'submit<%s>#shared-state' % t
+        bad = None
+        for (g, _p, _c) in seen.values():
+            if not g.q.startswith('osmium::') or g.cls == U.QUEUE:
+                continue
+            for n in g.all_nodes():
+                if n.get('k') == 'decl':
+                    for v in n['vars']:
+                        if v.get('static') and not _is_const_type(v['tC']) and (g.q, v['name']) not in SHARED_STATE_OK:
+                            bad = bad or (g, n, 'function-local static `%s %s` in %s' % (v['t'], v['name'], g.q))
+            for (n, how) in _written_globals(fb, g):
+                if (g.q, n.get('q')) not in SHARED_STATE_OK:
+                    bad = bad or (g, n, 'variable %s (%s) in %s' % (n.get('q'), how, g.q))
+        if bad:
+            g, n, what = bad
+            R.bad('W4-pool-task-shares-no-mutable-state', key, g.loc(n['id']),
+                  'pool task %s::operator() reaches shared mutable state: %s (%s). All workers use the one object concurrently, so with two '
+                  'blocks in flight one task decodes from / overwrites the data of the other: the result depends on the schedule'
+                  % (t, what, U.chain(seen, g)))
+        else:
+            R.ok('W4-pool-task-shares-no-mutable-state', key, ops[0].site, '%d bodies reachable' % len(seen))
 
 
 # ================================================================================================ push precedes work
@@ -1795,6 +1887,7 @@ def _case_name(fn, blk):
 def all_rules(fb, R, files=DECODER_FILES, pbf_files=PBF_FILES, opt_files=OPTION_FILES):
     rule_producers(fb, R)
     types = rule_pool_tasks(fb, R)
+    rule_pool_task_state(fb, R, types)
     rule_push_precedes_work(fb, R, types)
     rule_reader_read(fb, R)
     rule_last_nested_guarded(fb, R)
@@ -1823,6 +1916,7 @@ def run(ctx):
         c19.queue_rules(ctx.facts(['thread'], cfg), R)
     # floors: instances confirmed by reading the tree
     R.expect('W1-pool-task-never-enqueues', 1)               # PBFDataBlobDecoder
+    R.expect('W4-pool-task-shares-no-mutable-state', 1)      # PBFDataBlobDecoder
     R.expect('W2-queue-producer-role', 6)                    # Parser::send_to_output_queue x2, Parser::parse x2, run_in_thread x2
     R.expect('W2-thread-enqueues-only-its-queue', 5)         # 2 queues, 2 producing entries, consumer side
     R.expect('W3-one-parser-thread', 1)                      # Reader constructor
@@ -1867,7 +1961,7 @@ def _selftest(fb, R):
 
 
 SELFTESTS = [(r, 'c05_reader.cpp', _selftest) for r in (
-    'W1-pool-task-never-enqueues', 'W2-queue-producer-role', 'W2-thread-enqueues-only-its-queue', 'W3-one-parser-thread',
+    'W1-pool-task-never-enqueues', 'W4-pool-task-shares-no-mutable-state', 'W2-queue-producer-role', 'W2-thread-enqueues-only-its-queue', 'W3-one-parser-thread',
     'O1-submit-future-enqueued-directly', 'O1-one-enqueue-per-blob', 'R1-back-buffers-drained-before-pop', 'R2-last-nested-needs-nested',
     'R2-whole-buffer-only-without-nested', 'R3-popped-nested-buffer-stashed', 'R4-end-of-data-marks-eof', 'R4-pop-only-in-status-okay',
     'R5-wrapper-pop-returns-future-value', 'R6-end-marker-is-invalid-buffer', 'I1-iterator-refills-only-at-buffer-end',
